@@ -1170,12 +1170,23 @@ class Arithmetic(Expr):
                 c = c.encode('utf-8').decode('unicode_escape')
                 return ord(c)
             except (TypeError, UnicodeDecodeError):
+                # not a single literal: maybe several of them ('a' + 'b')
+                pass
+
+        # a character literal inside a larger expression ('a' + 1) is the number of its character
+        expr = self.expr
+        if '\'' in expr:
+            def ordinal(match):
+                return str(ord(match.group(0)[1:-1].encode('utf-8').decode('unicode_escape')))
+            try:
+                expr = re.sub(r"'(\\x[0-9a-fA-F]{2}|\\u[0-9a-fA-F]{4}|\\[0-7]{1,3}|\\.|[^\\'])'", ordinal, expr)
+            except (TypeError, UnicodeDecodeError):
                 raise AssemblerError('invalid char literal in expr: "{}"'.format(self.expr), line)
 
         try:
             # exclude Python builtins from eval env
             # https://docs.python.org/3/library/functions.html#eval
-            result = eval(self.expr, {'__builtins__': None}, env)
+            result = eval(expr, {'__builtins__': None}, env)
         except SyntaxError:
             raise AssemblerError('invalid syntax in expr: "{}"'.format(self.expr), line)
         except TypeError:
